@@ -119,7 +119,8 @@ Import LimitBid LimitBidProofs.
    denom; C11-F2: the equal-amount automatic fill reduces BidValue).  [ops] is ANY finite history
    of deposit / cancel / withdraw messages (any sender, any amount, any denom, any asset ids,
    any premium) and automatic fills (any auction debt, any listing of records, any settlement
-   outcome), started from the empty book over any ledger. *)
+   outcome: committed or rolled back, any net out- or inflow of the module's debt coins),
+   started from the empty book over any ledger. *)
 
 (* the recorded total of every market equals the sum of the individual deposits, no deposit is
    negative, every deposit is in the denom of its market's debt asset -- no hypothesis at all *)
@@ -240,6 +241,38 @@ Example c11_limit_total_regression :
   let ops := [Deposit 0 1 2 5 0 1000000; AutoFill 2 1 5 1000000 [0] 906000 true] in
   let s := lrun cfg0 (lempty rich) ops in
   tot (2, 1) s = 0 /\ sum_market (2, 1) s = 0 /\ recs s = [] /\ led s MOD 0 = 94000 /\
+  env_run cfg0 (lempty rich) ops.
+Proof. vm_compute. repeat split; try lia; discriminate. Qed.
+
+(* the thorough-tier history (corpus case 3): a record of 1 250 000 is filled against the debt
+   3 120 000; a new deposit of 1 000 000 then meets the remaining 1 870 000 when the collateral has
+   run short: PlaceDutchAuctionBid cuts the bid down to 104 800, the app reserve pays the rest INTO
+   the module, LimitOrderBid charges the record in full.  The settlement's effect on the module's
+   free coins is an outflow of 104 800; measured without setting the booked penalty aside it is a
+   net INFLOW (the sign the model used to turn into a panic): both are steps of the model, both
+   meet the environment hypothesis of the custody theorem *)
+Example c11_limit_fill_cut_down_regression :
+  let ops := [Deposit 0 1 2 9 0 1250000; AutoFill 2 1 9 3120000 [0] 1250000 true;
+              Deposit 0 1 2 9 0 1000000; AutoFill 2 1 9 1870000 [0] 104800 true] in
+  let s := lrun cfg0 (lempty rich) ops in
+  recs s = [] /\ tot (2, 1) s = 0 /\ led s MOD 0 = 895200 /\ led s 0 0 = 7750000 /\
+  env_run cfg0 (lempty rich) ops /\
+  (exists s', lstep cfg0 (lrun cfg0 (lempty rich) (firstn 3 ops)) (AutoFill 2 1 9 1870000 [0] (-15200) true) = Ok s' /\
+              recs s' = [] /\ tot (2, 1) s' = 0 /\ led s' MOD 0 = 1015200) /\
+  env_ok (lrun cfg0 (lempty rich) (firstn 3 ops)) (AutoFill 2 1 9 1870000 [0] (-15200) true).
+Proof.
+  vm_compute. repeat split; try lia; try discriminate.
+  eexists. split; [reflexivity|]. repeat split.
+Qed.
+
+(* corpus case 4: a record of 3 000 000 above the debt 1 120 000 of an auction whose collateral is
+   worth 906 000: the record is charged the whole debt although the bid placed is 906 000 (the
+   difference stays in the module, owned by no record: reported under C10); total = sum of
+   deposits and custody hold *)
+Example c11_limit_fill_overcharge_regression :
+  let ops := [Deposit 0 1 2 9 0 3000000; AutoFill 2 1 9 1120000 [0] 906000 true] in
+  let s := lrun cfg0 (lempty rich) ops in
+  dep (mkK 2 1 9 0) s = 1880000 /\ tot (2, 1) s = 1880000 /\ led s MOD 0 = 2094000 /\
   env_run cfg0 (lempty rich) ops.
 Proof. vm_compute. repeat split; try lia; discriminate. Qed.
 
